@@ -1036,3 +1036,255 @@ pub fn mutant_cases(
         }
     }
 }
+
+// ---------------------------------------------------------------- behavioural ties (every run)
+
+/// Minimal single-namespace world used by the `boundary` and `variant` families:
+/// type T0/0, generic type T1/1, account Acc, sets S00 S10 S01.
+fn mini_world() -> Vec<Line> {
+    vec![
+        Line::Def("a".into()),
+        Line::Ty { ext: false, source: "T0".into(), arity: 0, td: Td::Struct(vec![]) },
+        Line::Ty { ext: false, source: "T1".into(), arity: 1, td: Td::Struct(vec![Td::Generic("X".into())]) },
+        Line::Acct { source: "Acc".into(), tid: tid("T0", None, vec![]), seeds: None },
+        Line::Set { source: "S00".into(), ty_arity: 0, acc_arity: 0, sd: estruct() },
+        Line::Set { source: "S10".into(), ty_arity: 1, acc_arity: 0, sd: estruct() },
+        Line::Set { source: "S01".into(), ty_arity: 0, acc_arity: 1, sd: estruct() },
+    ]
+}
+
+fn mini_case(kind: String, probe: Vec<Line>) -> Case {
+    let mut l = mini_world();
+    l.extend(probe);
+    l.extend(verifies(false));
+    mk(kind, l)
+}
+
+/// The name of the `IdlTypeDef` variant a mirror value builds (mirrors `encode::td_variant_name`,
+/// which is the exhaustive match on the REAL enum; `main` cross-checks the two on every case).
+pub fn td_variant(t: &Td) -> &'static str {
+    match t {
+        Td::Defined(_) => "Defined",
+        Td::Generic(_) => "Generic",
+        Td::Prim(p) => match *p {
+            "bool" => "Bool", "u8" => "U8", "i8" => "I8", "u16" => "U16", "i16" => "I16", "u32" => "U32", "i32" => "I32",
+            "f32" => "F32", "u64" => "U64", "i64" => "I64", "f64" => "F64", "u128" => "U128", "i128" => "I128",
+            "string" => "String", "pubkey" => "Pubkey", _ => "RemainingBytes",
+        },
+        Td::FixedPoint(..) => "FixedPoint",
+        Td::Option(..) => "Option",
+        Td::List(..) => "List",
+        Td::UnsizedList(..) => "UnsizedList",
+        Td::Set(..) => "Set",
+        Td::Map(..) => "Map",
+        Td::Array(..) => "Array",
+        Td::Struct(_) => "Struct",
+        Td::Enum(..) => "Enum",
+    }
+}
+
+pub fn sd_variant(s: &Sd) -> &'static str {
+    match s {
+        Sd::Defined { .. } => "Defined",
+        Sd::Single(_) => "Single",
+        Sd::Struct(_) => "Struct",
+        Sd::Many(..) => "Many",
+        Sd::Or(_) => "Or",
+    }
+}
+
+/// One probe of the `variant` family: the variant (of `IdlTypeDef` "td" or `IdlAccountSetDef` "sd")
+/// under test, the position inside it, and whether the nested reference dangles.
+pub struct VariantProbe {
+    pub enum_name: &'static str,
+    pub variant: &'static str,
+    pub position: &'static str,
+    pub dangling: bool,
+    pub td: Option<Td>,
+    pub sd: Option<Sd>,
+}
+
+/// **Walker coverage, independent of what the translator could read**: for every variant of
+/// `IdlTypeDef` and `IdlAccountSetDef` and every position inside it that holds a type definition /
+/// account-set definition / reference, one graph with a DANGLING reference nested at that position
+/// (the verifier must reject iff its walk descends there) and one with a resolving reference (must
+/// accept); every leaf variant once (must accept). The harness oracle (generic JSON walk) supplies
+/// the expected answer; the Lean model is diffed as always.
+pub fn variant_probes() -> Vec<VariantProbe> {
+    let mut v = vec![];
+    for dangling in [true, false] {
+        let r = || if dangling { tref("Zmissing", None, 0) } else { tref("T0", None, 0) };
+        for (pos, ctx) in td_contexts() {
+            let t = ctx(r());
+            v.push(VariantProbe { enum_name: "td", variant: td_variant(&t), position: pos, dangling, td: Some(t), sd: None });
+        }
+        // `Defined`: the reference itself
+        let t = r();
+        v.push(VariantProbe { enum_name: "td", variant: "Defined", position: "self", dangling, td: Some(t), sd: None });
+        let a = || if dangling { aid("Zacc", None) } else { aid("Acc", None) };
+        let s = || if dangling { sid("Zs", vec![], vec![]) } else { sid("S00", vec![], vec![]) };
+        let sds: Vec<(&'static str, Sd)> = vec![
+            ("self", s()),
+            ("provided_type_generics", sid("S10", vec![r()], vec![])),
+            ("provided_account_generics", sid("S01", vec![], vec![s()])),
+            ("program_accounts[0]", Sd::Single(vec![a()])),
+            ("program_accounts[1]", Sd::Single(vec![aid("Acc", None), a()])),
+            ("field[0]", Sd::Struct(vec![s(), estruct()])),
+            ("field[1]", Sd::Struct(vec![estruct(), s()])),
+            ("account_set", Sd::Many(Box::new(s()), 0, None)),
+            ("account_set(bounded)", Sd::Many(Box::new(s()), 1, Some(1))),
+            ("branch[0]", Sd::Or(vec![s(), estruct()])),
+            ("branch[1]", Sd::Or(vec![estruct(), s()])),
+        ];
+        for (pos, sd) in sds {
+            v.push(VariantProbe { enum_name: "sd", variant: sd_variant(&sd), position: pos, dangling, td: None, sd: Some(sd) });
+        }
+    }
+    for prim in PRIMS {
+        let t = p(prim);
+        v.push(VariantProbe { enum_name: "td", variant: td_variant(&t), position: "leaf", dangling: false, td: Some(t), sd: None });
+    }
+    let g = Td::Generic("G".into());
+    v.push(VariantProbe { enum_name: "td", variant: "Generic", position: "leaf", dangling: false, td: Some(g), sd: None });
+    v
+}
+
+pub fn variant_cases(out: &mut Vec<Case>) {
+    for pr in variant_probes() {
+        let kind = format!(
+            "variant enum={} variant={} pos={} ref={}",
+            pr.enum_name,
+            pr.variant,
+            pr.position,
+            if pr.dangling { "dangling" } else { "ok" }
+        );
+        if let Some(t) = pr.td {
+            // as a type body and as a seed type (two different callers of the type walk)
+            out.push(mini_case(format!("{kind} root=types"), vec![Line::Ty { ext: false, source: "P".into(), arity: 0, td: t.clone() }]));
+            out.push(mini_case(
+                format!("{kind} root=account.seed"),
+                vec![Line::Acct { source: "Q".into(), tid: tid("T0", None, vec![]), seeds: Some(vec![Seed::Variable(t)]) }],
+            ));
+        }
+        if let Some(s) = pr.sd {
+            out.push(mini_case(format!("{kind} root=account_sets"), vec![Line::Set { source: "Q".into(), ty_arity: 0, acc_arity: 0, sd: s.clone() }]));
+            out.push(mini_case(format!("{kind} root=instruction"), vec![Line::Ix { source: "Q".into(), tid: tid("T0", None, vec![]), sd: s }]));
+        }
+    }
+}
+
+/// **Rule conditions, behaviourally**: boundary graphs around the condition of every rule, so that
+/// a changed comparison (`<` vs `<=`, signed arithmetic, `!=` vs `<`, emptiness vs length …) is
+/// caught with a failing input — no check depends on how the condition is spelled in the source.
+pub fn boundary_cases(out: &mut Vec<Case>) {
+    // SFIDL010: Many bounds. Values around 0, the i32/u32/i64/u64 edges ("signed-looking" values).
+    let vals: [usize; 13] = [
+        0, 1, 2, 3, (1 << 31) - 1, 1 << 31, u32::MAX as usize, 1 << 32, (1 << 63) - 1, 1 << 63, (1 << 63) + 1, usize::MAX - 1, usize::MAX,
+    ];
+    for &mn in &vals {
+        let mut maxes: Vec<Option<usize>> = vec![None];
+        maxes.extend(vals.iter().map(|&m| Some(m)));
+        // also the immediate neighbours of min
+        maxes.push(mn.checked_sub(1));
+        maxes.push(Some(mn));
+        maxes.push(mn.checked_add(1));
+        for mx in maxes {
+            let sd = Sd::Many(Box::new(estruct()), mn, mx);
+            out.push(mini_case(format!("boundary many min={mn} max={mx:?} root=account_sets"), vec![Line::Set { source: "Q".into(), ty_arity: 0, acc_arity: 0, sd: sd.clone() }]));
+            out.push(mini_case(
+                format!("boundary many min={mn} max={mx:?} root=instruction.nested"),
+                vec![Line::Ix { source: "Q".into(), tid: tid("T0", None, vec![]), sd: Sd::Struct(vec![Sd::Or(vec![sd])]) }],
+            ));
+        }
+    }
+    // SFIDL011: Or with 0..3 branches, at the root and nested in every account-set position
+    for n in 0..=3usize {
+        let o = Sd::Or(vec![estruct(); n]);
+        let places: Vec<(&str, Sd)> = vec![
+            ("root", o.clone()),
+            ("many.inner", Sd::Many(Box::new(o.clone()), 0, None)),
+            ("struct.field", Sd::Struct(vec![estruct(), o.clone()])),
+            ("or.branch", Sd::Or(vec![estruct(), o.clone()])),
+            ("sid.account_generic", sid("S01", vec![], vec![o.clone()])),
+        ];
+        for (pn, s) in places {
+            out.push(mini_case(format!("boundary or n={n} at={pn}"), vec![Line::Set { source: "Q".into(), ty_arity: 0, acc_arity: 0, sd: s }]));
+        }
+    }
+    // SFIDL005: declared x provided type generics 0..3
+    for d in 0..=3usize {
+        for pv in 0..=3usize {
+            let l = vec![Line::Ty { ext: false, source: "G".into(), arity: d, td: Td::Struct(vec![]) }];
+            let id = tid("G", None, vec![p("u8"); pv]);
+            let mut a = l.clone();
+            a.push(Line::Ty { ext: false, source: "P".into(), arity: 0, td: Td::Defined(id.clone()) });
+            out.push(mini_case(format!("boundary type_arity declared={d} provided={pv} at=typedef"), a));
+            let mut b = l.clone();
+            b.push(Line::Ix { source: "Q".into(), tid: id, sd: estruct() });
+            out.push(mini_case(format!("boundary type_arity declared={d} provided={pv} at=instruction.type_id"), b));
+        }
+    }
+    // SFIDL007 / SFIDL008: declared x provided, both kinds, 0..2
+    for td_ in 0..=2usize {
+        for ad in 0..=2usize {
+            for tp in 0..=2usize {
+                for ap in 0..=2usize {
+                    out.push(mini_case(
+                        format!("boundary set_arity declared={td_}/{ad} provided={tp}/{ap}"),
+                        vec![
+                            Line::Set { source: "G".into(), ty_arity: td_, acc_arity: ad, sd: estruct() },
+                            Line::Set { source: "Q".into(), ty_arity: 0, acc_arity: 0, sd: sid("G", vec![p("u8"); tp], vec![estruct(); ap]) },
+                        ],
+                    ));
+                }
+            }
+        }
+    }
+    // SFIDL001 / SFIDL002: what counts as empty / equal after trimming
+    let specials = [
+        "", " ", "\t", "\n", "\u{b}", "\u{c}", "\r", "\u{85}", "\u{a0}", "\u{1680}", "\u{180e}", "\u{2000}", "\u{2005}", "\u{200a}",
+        "\u{200b}", "\u{2028}", "\u{2029}", "\u{202f}", "\u{205f}", "\u{2060}", "\u{3000}", "\u{feff}", "\u{1c}", "\u{1f}", "\u{0}",
+    ];
+    for c in specials {
+        for name in [c.to_string(), format!("{c}{c}"), format!("{c}a"), format!("a{c}"), format!("{c}a{c}"), format!("a{c}a")] {
+            // alone, and next to a definition called "a" (duplicate iff it trims to "a")
+            out.push(mk(
+                format!("boundary namespace alone"),
+                vec![Line::Def(name.clone()), Line::Verify { mode: Mode::Compat, perm: None }, Line::Verify { mode: Mode::Strict, perm: None }],
+            ));
+            out.push(mk(
+                format!("boundary namespace with_a"),
+                vec![
+                    Line::Def("a".into()),
+                    Line::Ty { ext: false, source: "T0".into(), arity: 0, td: p("u8") },
+                    Line::Def(name.clone()),
+                    // a reference to namespace "a": resolves (to the first definition) unless the set is rejected earlier
+                    Line::Ty { ext: false, source: "P".into(), arity: 0, td: tref("T0", Some("a"), 0) },
+                    Line::Verify { mode: Mode::Compat, perm: None },
+                    Line::Verify { mode: Mode::Strict, perm: None },
+                    Line::Verify { mode: Mode::Strict, perm: Some(vec![1, 0]) },
+                ],
+            ));
+        }
+    }
+    // SFIDL003 / 004 / 006 / 009: present vs absent, each resolution path, both modes (compact grid)
+    for (nn, ns) in [("none", None), ("self", Some("a")), ("other", Some("b")), ("absent", Some("z"))] {
+        for (sn, src) in [("local", "T0"), ("other_only", "B0"), ("nowhere", "Z")] {
+            let mut l = vec![
+                Line::Def("b".into()),
+                Line::Ty { ext: false, source: "B0".into(), arity: 0, td: p("u8") },
+                Line::Acct { source: "B0".into(), tid: tid("B0", None, vec![]), seeds: None },
+            ];
+            l.extend(mini_world());
+            l.push(Line::Acct { source: "T0".into(), tid: tid("T0", None, vec![]), seeds: None });
+            let mut t = l.clone();
+            t.push(Line::Ty { ext: false, source: "P".into(), arity: 0, td: tref(src, ns, 0) });
+            t.extend(verifies(true));
+            out.push(mk(format!("boundary resolve type ns={nn} source={sn}"), t));
+            let mut a = l.clone();
+            a.push(Line::Set { source: "Q".into(), ty_arity: 0, acc_arity: 0, sd: Sd::Single(vec![aid(src, ns)]) });
+            a.extend(verifies(true));
+            out.push(mk(format!("boundary resolve account ns={nn} source={sn}"), a));
+        }
+    }
+}
